@@ -13,7 +13,7 @@ from ..actors import World, make_async_source, make_async_fn, FnPlan, ident
 from ..loop import PAUSE
 from ..runner import Outcome
 from ..tools import draw_cfg, Gen, lib
-from .common import COMPONENTS_BASE, run_sim, new_sim, finish_outcome
+from .common import set_interrupts, COMPONENTS_BASE, run_sim, new_sim, finish_outcome
 
 PID = "C07"
 LEVEL = "exploration"
@@ -102,7 +102,7 @@ def execute(st, ctx):
     out = Outcome()
     sc = gen(st.scenario)
     sim = new_sim(st, interrupts=False)
-    sim.interrupt_den = (0, 0, 5, 2)[sc.interrupt]
+    set_interrupts(sim, (0, 0, 5, 2)[sc.interrupt])
     world = World(sim)
     L = lib()
     src = make_async_source(world, sc.src)
